@@ -6,8 +6,9 @@
  "mode": "harness",
  "kind": "proof",
  "replace_calls": {"condexpr": "stub_condexpr"},
+ "variants": {"reject": [], "accept": ["-DACCEPT"]}, "canary_variant": "reject",
  "unwindset": ["recorded.0:9", "tysel.0:27"],
- "cflags": ["-DVERIF_OWN_XMALLOC"],
+ "link_repo": ["type.c"], "cflags": ["-DVERIF_OWN_XMALLOC"],
  "timeout": 120,
  "expects": ["assertion_verif"],
  "replay": false,
@@ -36,7 +37,15 @@ stub_condexpr(struct scope *s)
 #define O_SIGNED spec_at_signed(O_CODE, g_signedchar)
 #define O_NEG    (O_SIGNED && (i64)g_ov < 0)
 
+#ifdef ACCEPT
+/* variant "accept": an integer constant expression that is non-negative (or may be negative) must be accepted */
+#define PRE_CASE(X) X(g_oek == EK_CONST && TS_ISINT(g_ots) && (allowneg || !O_NEG))
+#else
+#define PRE_CASE(X)
+#endif
+
 #define PRE(X) \
+	PRE_CASE(X) \
 	X(g_e != 0 && g_e == g_l) \
 	X(TS_OPERAND(g_ots) && g_oek < EK_N && g_enAb <= AT_ULLONG && g_enBb <= AT_ULLONG) \
 	X(IMP(g_ots == TS_PTR, g_obs < BS_N && g_oq <= QUALMAX)) \
@@ -74,5 +83,8 @@ harness(void)
 	ot = optype(in_ots, &ty_po, in_obs, in_oq);
 	g_e = mk_operand(in_oek, ot, in_ov, 0, 8 * (unsigned)ot->size - 1, in_olv, QUALNONE);
 	g_l = g_e; g_r = 0; g_lt = ot; g_rt = 0;
+#ifdef ACCEPT
+	g_no_error = 1;
+#endif
 	HCALLR(unsigned long long, PRE, POST, intconstexpr(s, allowneg));
 }
